@@ -233,6 +233,14 @@ def check_genesis(p, ts, balw, BAL):
         if not uniq:
             return False, "balances are created with `save` (overwrite) but no uniqueness validation (sort+dedup / set insert) " \
                           "of the account list guards the loop: a repeated address is summed twice and stored once"
+        # the key must be an injective image of what was validated unique: addr_validate(<element>.address) is the identity on
+        # success; a normalising conversion (canonicalize/humanize, lower-casing) maps distinct validated strings to one key
+        k = w.key
+        if not (k[0] == "vfield" and k[2] == "Ok" and k[1][0] == "call" and k[1][1].endswith("Api::addr_validate")
+                and k[1][2][-1][0] == "field" and k[1][2][-1][2] == "address"
+                and k[1][2][-1][1][0] == "vfield" and k[1][2][-1][1][1][0] == "calli"):
+            return False, "balance key %s is not addr_validate(<row>.address): uniqueness was validated on the raw address strings, " \
+                          "a key derived otherwise can map two distinct rows to one account" % show(k)[:200]
         return True, None
     # update form: insert-if-absent or additive
     d = cell_delta(w)
